@@ -27,6 +27,9 @@ SERVERS = {
     "ping_flood": [(100, wire.sframe(9, b"k")) for i in range(25)],
     "data_eof": [(0, wire.sframe(1, b"last")), (0, "eof")],
     "close_empty_eof": [(0, wire.sframe(8, b"")), (0, "eof")],
+    # a frame header that announces 2^63 bytes, then the end of the stream: whatever the outcome of the read, the connection
+    # state machine goes on normally (close() releases, later calls report the closed connection)
+    "huge_len_eof": [(0, wire.sframe(1, b"hi")), (0, b"\x82\x7f\x80\x00\x00\x00\x00\x00\x00\x00abc"), (0, "eof")],
     # a frame that arrives one byte at a time, slower than any single read would time out
     "dribble": [(400, bytes([b])) for b in wire.sframe(1, b"0123456789")],
     # the peer closes its end right after its close frame and the transport then refuses writes (EPIPE)
@@ -194,6 +197,9 @@ def scenarios(rng, tier):
     for _ in range(300 if tier == "quick" else 5000):
         n += 1
         out.append({"tid": "q%d" % n, "server": rng.choice(servers), "calls": [rng.choice(names) for _ in range(rng.randrange(4, 7))]})
+    for tail in (["close", "recv"], ["shutdown", "recv", "send"], ["recv", "recv"], ["send_close", "recv", "close", "recv"]):
+        n += 1
+        out.append({"tid": "q%d" % n, "server": "huge_len_eof", "calls": ["recv", "recv"] + tail})
     # extended API mixed into call sequences
     allnames = names + list(XCALLS)
     for _ in range(400 if tier == "quick" else 6000):
